@@ -1100,7 +1100,7 @@ package channel
 //@   (!isNoApp(x.App) ==> marshalLen(appDef(x.App)) <= 65535)
 //@ pred stateEqc(y State, x State) = y.ID == x.ID && y.Version == x.Version && y.IsFinal == x.IsFinal && allocRT(y.Allocation, x.Allocation) &&
 //@   (isNoApp(x.App) ==> isNoApp(y.App)) && y.App != nil && y.Data != nil && unmarshalledFrom(y.Data) == marshalOf(x.Data)
-//@ codec State wf stateWFc eq stateEqc by verifRoundTripState
+//@ codec State wf stateWFc eq stateEqc by verifRoundTripState mayreject
 //@ func verifRoundTripState
 //@   tokenmodel
 //@   requires w0 != nil && r0 != nil && stateWFc(x)
@@ -1118,7 +1118,7 @@ package channel
 //@ pred paramsEqc(y *Params, x *Params) = y != nil && y.ChallengeDuration == x.ChallengeDuration && len(y.Parts) == len(x.Parts) &&
 //@   (forall i int :: 0 <= i && i < len(x.Parts) ==> addrMapEq(y.Parts[i], x.Parts[i])) && (isNoApp(x.App) ==> isNoApp(y.App)) && y.App != nil &&
 //@   y.Nonce != nil && val(y.Nonce) == val(x.Nonce) && y.LedgerChannel == x.LedgerChannel && y.VirtualChannel == x.VirtualChannel && y.Aux == x.Aux
-//@ codec Params wf paramsWFc eq paramsEqc by verifRoundTripParams
+//@ codec Params wf paramsWFc eq paramsEqc by verifRoundTripParams mayreject
 //@ func verifRoundTripParams
 //@   tokenmodel
 //@   requires w0 != nil && r0 != nil && paramsWFc(x)
